@@ -100,7 +100,8 @@ func checkC04(p *Prog, r *Report) {
 	r.Rule("R4.3", "On the transition to Failed the mux entries, checklist, pair index, pending transactions, selection and candidates are released before the state is stored and notified; in setSelectedPair the pair is stored before the transition to Connected.", 3)
 	{
 		t := p.NewTable(ucs)
-		t.Event = func(n ast.Node, _ *TEnv) []string {
+		var evOf func(n ast.Node, depth int) []string
+		evOf = func(n ast.Node, depth int) []string {
 			var out []string
 			if as, ok := n.(*ast.AssignStmt); ok {
 				for _, l := range as.Lhs {
@@ -123,10 +124,30 @@ func checkC04(p *Prog, r *Report) {
 					out = append(out, "deleteAll")
 				case "ice.handlerNotifier.EnqueueConnectionState":
 					out = append(out, "notify")
+				default:
+					// a straight-line helper of the agent contributes its own events in order
+					if o := p.Callee(c); o != nil && depth < 2 {
+						if h := p.ByObj[o]; h != nil && h.Body != nil && strings.HasPrefix(h.Name, "Agent.") {
+							straight := true
+							for _, st := range h.Body.List {
+								switch st.(type) {
+								case *ast.AssignStmt, *ast.ExprStmt:
+								default:
+									straight = false
+								}
+							}
+							if straight {
+								for _, st := range h.Body.List {
+									out = append(out, evOf(st, depth+1)...)
+								}
+							}
+						}
+					}
 				}
 			}
 			return out
 		}
+		t.Event = func(n ast.Node, _ *TEnv) []string { return evOf(n, 0) }
 		t.Run()
 		sawFailed := false
 		for _, sp := range t.Semantic(func(a *TAtom) (string, bool) {
